@@ -13,6 +13,7 @@ from symx import shims
 
 import armi.materials.material as matmod
 import armi.utils.densityTools as dtmod
+import armi.utils.units as unitsmod
 from armi import settings
 from armi.materials import UZr, UO2
 from armi.nucDirectory import nuclideBases
@@ -21,8 +22,10 @@ from armi.reactor.blueprints.assemblyBlueprint import Modifications
 from armi.reactor.blueprints.isotopicOptions import CustomIsotopic
 
 shims.patch(matmod, float=shims.float_shim)
+shims.patch(unitsmod, float=shims.float_shim)
 
-STUBS = ["armi.materials.material.float -> identity on proxies (setMassFrac converts with float())"]
+STUBS = ["armi.materials.material.float -> identity on proxies (setMassFrac converts with float())",
+         "armi.utils.units.float -> identity on proxies (getTc/getTk convert with float())"]
 
 SKELETON = r"""
 nuclide flags:
@@ -245,3 +248,436 @@ def custom_isotopics_replace_the_library_composition(ctx, nucs):
     ctx.check_close("zirconium (expanded to its isotopes) is the one of the custom vector", zr_of(mf),
                     vec.get("ZR", 0.0), scale=1.0)
     ctx.check_close("the composition sums to one", sum(mf.values()), 1.0, scale=1.0)
+
+
+# =========================================================================================================
+# Second skeleton: a block with TWO components of a library fuel material (so that "for the whole block" and "by
+# component" can be told apart).
+
+SKELETON2 = r"""
+nuclide flags:
+    U235: {burn: false, xs: true}
+    U238: {burn: false, xs: true}
+    PU239: {burn: false, xs: true}
+    PU240: {burn: false, xs: true}
+    ZR: {burn: false, xs: true}
+custom isotopics:
+    feedA:
+        input format: mass fractions
+        PU239: 1.0
+    feedB:
+        input format: mass fractions
+        U238: 1.0
+blocks:
+    fuel: &block_fuel
+        fuel:
+            shape: Circle
+            material: UZr
+            Tinput: 25.0
+            Thot: 25.0
+            id: 0.0
+            od: 1.0
+            mult: 1
+        fuel2:
+            shape: Circle
+            material: UZr
+            Tinput: 25.0
+            Thot: 25.0
+            id: 1.0
+            od: 1.5
+            mult: 1
+        duct:
+            shape: Hexagon
+            material: Void
+            Tinput: 25.0
+            Thot: 25.0
+            ip: 2.0
+            op: 2.1
+            mult: 1
+assemblies:
+    fuel a:
+        specifier: IC
+        blocks: [*block_fuel, *block_fuel]
+        height: [10.0, 10.0]
+        axial mesh points: [1, 1]
+        xs types: [A, A]
+        material modifications:
+            ZR_wt_frac: [0.1, 0.1]
+"""
+
+# Third skeleton: one block with a solid (UZr) and a fluid (Sodium) component that both name custom isotopics carrying
+# a density.
+SKELETON3 = r"""
+nuclide flags:
+    U235: {burn: false, xs: true}
+    U238: {burn: false, xs: true}
+    ZR: {burn: false, xs: true}
+    NA: {burn: false, xs: true}
+custom isotopics:
+    heavy:
+        input format: mass fractions
+        density: 17.0
+        U235: 0.3
+        U238: 0.6
+        ZR: 0.1
+    sodium:
+        input format: mass fractions
+        density: 0.8
+        NA: 1.0
+blocks:
+    pin: &block_pin
+        slug:
+            shape: Circle
+            material: UZr
+            isotopics: heavy
+            Tinput: 25.0
+            Thot: 600.0
+            id: 0.0
+            od: 0.7
+            mult: 7
+        coolant:
+            shape: Circle
+            material: Sodium
+            isotopics: sodium
+            Tinput: 150.0
+            Thot: 520.0
+            id: 2.4
+            od: 3.0
+            mult: 1
+        duct:
+            shape: Hexagon
+            material: Void
+            Tinput: 25.0
+            Thot: 25.0
+            ip: 4.0
+            op: 4.1
+            mult: 1
+assemblies:
+    pin a:
+        specifier: PA
+        blocks: [*block_pin]
+        height: [10.0]
+        axial mesh points: [1]
+        xs types: [A]
+"""
+
+_DESIGN2 = None
+_DESIGN3 = None
+
+
+def design2():
+    global _DESIGN2
+    if _DESIGN2 is None:
+        d = blueprints.Blueprints.load(SKELETON2)
+        cs = settings.Settings()
+        d._prepConstruction(cs)
+        _DESIGN2 = (d, cs)
+    return _DESIGN2
+
+
+def design3():
+    global _DESIGN3
+    if _DESIGN3 is None:
+        d = blueprints.Blueprints.load(SKELETON3)
+        cs = settings.Settings()
+        d._prepConstruction(cs)
+        _DESIGN3 = (d, cs)
+    return _DESIGN3
+
+
+UZR_LIBRARY_ENRICHMENT = 0.1     # U235 / U of armi.materials.UZr when no modification applies (read off the class)
+UZR_LIBRARY_ZR = 0.1
+
+
+def _is_blank(v):
+    return v is None or (isinstance(v, str) and v == "")
+
+
+def effective(*levels):
+    """The value of a modification for one component of one block: the most specific non-blank entry (levels are
+    given most specific first); None = nothing applies, the library composition stays."""
+    for v in levels:
+        if not _is_blank(v):
+            return v
+    return None
+
+
+BLANKS = {
+    # which entries are left blank ('' = "no modification for this block"): (list, axial index)
+    "none": (),
+    "component entry of block 1": (("C", 1),),
+    "block entry of block 1": (("B", 1),),
+    "component entry of block 0, block entry of block 1": (("C", 0), ("B", 1)),
+    "both entries of block 1": (("C", 1), ("B", 1)),
+}
+
+
+@harness("C18", bounds="two-block assembly whose blocks hold two UZr components (fuel, fuel2); U235_wt_frac is given "
+                       "BOTH for the whole block and under `by component` for fuel, ZR_wt_frac both for the whole "
+                       "block and `by component` for fuel2: the four entries of block 1 are symbolic reals in "
+                       "[0, 1], those of block 0 four different numbers; which entries are blank is the instance",
+         stubs=STUBS, instances={"quick": [dict(blank="none"), dict(blank="component entry of block 0, block entry of block 1")],
+                                 "thorough": [dict(blank=k) for k in BLANKS]}, qtimeout_ms=20000)
+def modification_given_for_the_block_and_for_a_component_the_component_entry_wins(ctx, blank):
+    d, cs = design2()
+    # block 0 carries fixed numbers (all four different), block 1 the symbolic ones
+    eB = [0.30, ctx.real("U235_wt_frac_block_1", 0.0, 1.0)]
+    eC = [0.20, ctx.real("U235_wt_frac_fuel_1", 0.0, 1.0)]
+    zB = [0.12, ctx.real("ZR_wt_frac_block_1", 0.0, 1.0)]
+    zC = [0.06, ctx.real("ZR_wt_frac_fuel2_1", 0.0, 1.0)]
+    eBt, eCt = list(eB), list(eC)
+    for which, k in BLANKS[blank]:
+        (eBt if which == "B" else eCt)[k] = ""
+    aD = configure(d, {"U235_wt_frac": eBt, "ZR_wt_frac": list(zB)},
+                   byComponent={"fuel": {"U235_wt_frac": eCt}, "fuel2": {"ZR_wt_frac": list(zC)}})
+    a = aD.construct(cs, d)
+    for k, b in enumerate(a):
+        # read off the input: the entry under the component's own name, else the entry for the whole block, else
+        # the library value
+        want = {"fuel": (effective(eCt[k], eBt[k]), zB[k]), "fuel2": (effective(eBt[k]), zC[k])}
+        for name, (e, z) in want.items():
+            e = UZR_LIBRARY_ENRICHMENT if e is None else e
+            mf = b.getComponentByName(name).material.massFrac
+            wantU5 = e * (1 - z)
+            if ctx.canary and k == 1 and name == "fuel2":
+                wantU5 = wantU5 + narrow(zC[1], 0.5, 0.51)
+            ctx.check_close("block %d, %s: zirconium mass fraction is the most specific entry given" % (k, name),
+                            zr_of(mf), z, scale=1.0)
+            ctx.check_close("block %d, %s: U235 mass fraction is (most specific enrichment entry) x uranium fraction"
+                            % (k, name), mf["U235"], wantU5, scale=1.0)
+            ctx.check_close("block %d, %s: U238 takes the rest of the uranium" % (k, name), mf["U238"],
+                            (1 - e) * (1 - z), scale=1.0)
+
+
+# =========================================================================================================
+# "blueprints that are inconsistent (... lists of unequal length) are refused with an error": the per-block lists of an
+# assembly.  Here the blueprint is TEXT, generated per path; the numbers in it are fixed, the lengths of the lists are
+# what the solver chooses.
+
+TEMPLATE_LISTS = r"""
+nuclide flags:
+    U235: {{burn: false, xs: true}}
+    U238: {{burn: false, xs: true}}
+    ZR: {{burn: false, xs: true}}
+blocks:
+    fuel: &block_fuel
+        fuel:
+            shape: Circle
+            material: UZr
+            Tinput: 25.0
+            Thot: 25.0
+            id: 0.0
+            od: 1.0
+            mult: 1
+        fuel2:
+            shape: Circle
+            material: UZr
+            Tinput: 25.0
+            Thot: 25.0
+            id: 1.0
+            od: 1.5
+            mult: 1
+        duct:
+            shape: Hexagon
+            material: Void
+            Tinput: 25.0
+            Thot: 25.0
+            ip: 2.0
+            op: 2.1
+            mult: 1
+assemblies:
+    fuel a:
+        specifier: IC
+        blocks: {blocks}
+        height: {height}
+        axial mesh points: {mesh}
+        xs types: {xs}
+        material modifications:
+            ZR_wt_frac: {zr}
+            by component:
+                fuel:
+                    U235_wt_frac: {e1}
+                fuel2:
+                    U235_wt_frac: {e2}
+"""
+# the per-block lists of the assembly, in the order of the symbolic selector `deviatingList`
+LISTS = ("height", "mesh", "xs", "zr", "e1", "e2")
+LIST_NAMES = {"height": "height", "mesh": "axial mesh points", "xs": "xs types",
+              "zr": "material modification ZR_wt_frac (whole block)",
+              "e1": "material modification U235_wt_frac by component fuel",
+              "e2": "material modification U235_wt_frac by component fuel2"}
+# entries to draw from (more than any list will need); all different so that an entry used for the wrong block shows
+POOL = {"height": [10.0, 20.0, 15.0, 12.0, 18.0, 11.0, 13.0], "mesh": [1, 2, 3, 4, 5, 6, 7],
+        "xs": ["A", "B", "C", "D", "E", "F", "G"], "zr": [0.10, 0.12, 0.14, 0.16, 0.18, 0.11, 0.13],
+        "e1": [0.20, 0.22, 0.24, 0.26, 0.28, 0.21, 0.23], "e2": [0.30, 0.32, 0.34, 0.36, 0.38, 0.31, 0.33]}
+
+# Candidate genuine defect on the unchanged tree (reported by an independent engineer; reproduction: the text that
+# lists_text(2, dict(LENGTHS, e1=4)) produces -- fuel: U235_wt_frac with 4 entries, fuel2: U235_wt_frac with 2 entries,
+# 2 blocks -- is accepted by Blueprints.load(...)._prepConstruction(Settings()); with 1 entry for fuel it ends in an
+# IndexError instead of the ValueError of the length check):
+# AssemblyBlueprint._checkParamConsistency collects the by-component lists in a dict keyed by the MODIFIER NAME only
+# ("material modifications for U235_wt_frac"), so of several components that give the same modifier only the LAST
+# one's list is compared with the number of blocks.  With the flag set, a wrong length of a by-component list that
+# is hidden this way (a later component gives the same modifier with the right length) is noted, not required to be
+# refused; every other wrong length is.
+KNOWN_DEFECT_by_component_list_lengths_are_checked_per_modifier_name = True
+
+
+def lists_text(nBlocks, lengths):
+    def seq(key):
+        return "[" + ", ".join(str(v) for v in POOL[key][:lengths[key]]) + "]"
+
+    return TEMPLATE_LISTS.format(blocks="[" + ", ".join(["*block_fuel"] * nBlocks) + "]",
+                                 **{k: seq(k) for k in LISTS})
+
+
+@harness("C18", bounds="assembly of nBlocks blocks (instance: 1..3) given as blueprint TEXT; symbolic: which one (or "
+                       "which two, thorough) of its six per-block lists -- height, axial mesh points, xs types, a "
+                       "whole-block material modification, the same by-component modification for two components "
+                       "-- has a length different from nBlocks, and by how much (-2..+3, not below 0); the entries "
+                       "are fixed, all different",
+         stubs=["none: Blueprints.load + _prepConstruction on generated text"],
+         instances={"quick": [dict(nBlocks=2, pairs=False), dict(nBlocks=3, pairs=False)],
+                    "thorough": [dict(nBlocks=n, pairs=p) for n in (1, 2, 3) for p in (False, True)]},
+         max_paths=5000)
+def assembly_with_a_per_block_list_of_another_length_than_its_blocks_is_refused(ctx, nBlocks, pairs):
+    which1 = ctx.int("deviatingList", -1, len(LISTS) - 1)            # -1: none
+    diff1 = ctx.int("lengthDifference", -2, 3)
+    which2 = ctx.int("deviatingList2", -1, len(LISTS) - 1 if pairs else -1)
+    diff2 = ctx.int("lengthDifference2", -2, 3)
+    ctx.assume(AND(diff1 != 0, diff2 != 0, nBlocks + diff1 >= 0, nBlocks + diff2 >= 0))
+    ctx.assume(OR(which2 == -1, which1 < which2))
+    ctx.assume(IMPLIES(which1 == -1, diff1 == 1))                    # unused numbers pinned
+    ctx.assume(IMPLIES(which2 == -1, diff2 == 1))
+    which1, diff1, which2, diff2 = int(which1), int(diff1), int(which2), int(diff2)
+    lengths = {k: nBlocks for k in LISTS}
+    for w, dl in ((which1, diff1), (which2, diff2)):
+        if w >= 0:
+            lengths[LISTS[w]] = nBlocks + dl
+    text = lists_text(nBlocks, lengths)
+    consistent = all(n == nBlocks for n in lengths.values())
+    wrong = [LIST_NAMES[k] + ": %d entries" % n for k, n in lengths.items() if n != nBlocks]
+    hidden = (lengths["e1"] != nBlocks and lengths["e2"] == nBlocks
+              and all(n == nBlocks for k, n in lengths.items() if k != "e1"))
+    mustRefuse = not consistent
+    if ctx.canary and lengths["xs"] == nBlocks + 1 and len(wrong) == 1:
+        mustRefuse = False                                # one input of the family: xs types one entry too long
+    refused, a = None, None
+    try:
+        design = blueprints.Blueprints.load(text)
+        design._prepConstruction(settings.Settings())
+        a = design.assemblies["fuel a"]
+    except ValueError as e:
+        refused = "ValueError: " + str(e).splitlines()[0][:100] if str(e) else "ValueError"
+    except IndexError:
+        if not (KNOWN_DEFECT_by_component_list_lengths_are_checked_per_modifier_name and hidden):
+            raise
+        refused = "IndexError"
+    if hidden and KNOWN_DEFECT_by_component_list_lengths_are_checked_per_modifier_name:
+        ctx.note("KNOWN_DEFECT_by_component_list_lengths_are_checked_per_modifier_name: fuel gives U235_wt_frac with "
+                 "%d entries for %d blocks, hidden by fuel2's list of the right length: %s"
+                 % (lengths["e1"], nBlocks, refused or "accepted"))
+        return
+    ctx.check("an assembly whose per-block lists do not all have one entry per block is refused with an error"
+              + ("" if refused or not mustRefuse else ": %d blocks, %s was built" % (nBlocks, "; ".join(wrong))),
+              (refused is not None) == mustRefuse)
+    if a is None:
+        return
+    ctx.check("the consistent assembly has one block per entry of `blocks`", len(a) == nBlocks)
+    for k, b in enumerate(a):
+        ctx.check("block %d has the height of its entry" % k, b.getHeight() == POOL["height"][k])
+        ctx.check("block %d has the cross-section type of its entry" % k, b.p.xsType == POOL["xs"][k])
+        ctx.check("block %d has the axial mesh points of its entry" % k, b.p.axMesh == POOL["mesh"][k])
+        for name, key in (("fuel", "e1"), ("fuel2", "e2")):
+            mf = b.getComponentByName(name).material.massFrac
+            e, z = POOL[key][k], POOL["zr"][k]
+            ctx.check("block %d, %s: zirconium and U235 mass fractions are those of its own entries" % (k, name),
+                      abs(zr_of(mf) - z) <= 1e-12 and abs(mf["U235"] - e * (1 - z)) <= 1e-12)
+    ctx.check("the blocks are stacked in the order given: each starts where the one below ends",
+              all(abs(b.p.zbottom - sum(POOL["height"][:k])) <= 1e-9 for k, b in enumerate(a)))
+
+
+# =========================================================================================================
+# "composition after the requested ... isotopic overrides": a custom isotopic vector that carries a DENSITY, named by
+# a component of a LIBRARY material.  The manual (doc/user/inputs.rst, custom isotopics): the density is "specified at
+# the input temperature for the component", and "all other properties of that material (e.g. expansion coefficients)
+# will continue to be used as if the component consisted of the library material".
+
+CUSTOM_DENSITY_CASES = {
+    # component of SKELETON3, custom vector it names, its material class, the vector (mass fractions), cold id/od/mult
+    "coolant": ("sodium", "Sodium", {"NA": 1.0}, (2.4, 3.0, 1)),
+    "slug": ("heavy", "UZr", {"U235": 0.3, "U238": 0.6, "ZR": 0.1}, (0.0, 0.7, 7)),
+}
+
+
+def _custom_vector(name, vec, density, fmt="mass fractions"):
+    ci = CustomIsotopic(name, fmt, None)
+    # the density goes into the slot yamlize keeps it in (the yamlize descriptor would coerce a proxy with float())
+    setattr(ci, CustomIsotopic._density.storage_name, density)
+    for nuc, v in vec.items():
+        ci[nuc] = v
+    ci._initializeMassFracs()
+    ci._expandElementMassFracs()
+    return ci
+
+
+@harness("C18", bounds="one block with a UZr slug and a Sodium annulus (fixed cold dimensions), each naming a custom "
+                       "isotopic vector with a density; symbolic: that density in [0.05, 30] g/cc (the vector is "
+                       "fixed); instances: which component is examined and its (Tinput, Thot), equal and unequal, "
+                       "heating and cooling (thorough: also both symbolic in [100, 800] C for the fluid)",
+         stubs=STUBS + ["the symbolic density is stored in CustomIsotopic past yamlize's float coercion"],
+         instances={"quick": [dict(comp="coolant", Tin=150.0, Thot=520.0), dict(comp="slug", Tin=25.0, Thot=600.0),
+                              dict(comp="coolant", Tin=450.0, Thot=450.0)],
+                    "thorough": [dict(comp=c, Tin=ti, Thot=th) for c in ("coolant", "slug")
+                                 for ti, th in ((150.0, 520.0), (520.0, 150.0), (450.0, 450.0), (25.0, 600.0))]
+                                + [dict(comp="coolant", Tin=None, Thot=None)]})    # both symbolic in [100, 800] C
+def density_given_with_custom_isotopics_is_the_density_at_the_input_temperature(ctx, comp, Tin, Thot):
+    import math
+
+    from armi import materials
+
+    d, cs = design3()
+    rho = ctx.real("customDensity", 0.05, 30.0)
+    if Tin is None:
+        Tin, Thot = ctx.real("Tinput", 100.0, 800.0), ctx.real("Thot", 100.0, 800.0)
+    vecName, matName, vec, (cid, cod, mult) = CUSTOM_DENSITY_CASES[comp]
+    for name, (vn, _m, v, _dims) in CUSTOM_DENSITY_CASES.items():
+        cD = d.blockDesigns["pin"][name]
+        # everything a run depends on is set on every call: the examined component gets the instance's temperatures
+        # and the symbolic density, the other one fixed numbers
+        for attr, temp in zip(("Tinput", "Thot"), (Tin, Thot) if name == comp else (300.0, 300.0)):
+            setattr(cD, getattr(type(cD), attr).storage_name, temp)       # past yamlize's float coercion
+        if vn in d.customIsotopics:
+            del d.customIsotopics[vn]
+        d.customIsotopics[vn] = _custom_vector(vn, v, rho if name == comp else 5.0)
+    a = d.assemDesigns["pin a"].construct(cs, d)
+    c = a[0].getComponentByName(comp)
+    got = c.density()
+    lib = getattr(materials, matName)()           # the library material, asked on plain numbers
+    areaCold = mult * math.pi / 4.0 * (cod ** 2 - cid ** 2)       # from the input text
+    if isinstance(lib, materials.Fluid):
+        # a fluid fills what it is given: between Tinput and Thot its density changes as the library law says
+        want = rho * lib.density(Tc=Thot) / lib.density(Tc=Tin)
+    else:
+        # a solid keeps its mass per unit length while its cross-section expands (the block height is the hot height)
+        want = rho * areaCold / c.getArea()
+    if ctx.canary:
+        want = want * (1 + narrow(rho, 3.0, 3.1))
+    ctx.check("the component was built at the temperatures of the input",
+              AND(c.inputTemperatureInC == Tin, c.temperatureInC == Thot))
+    ctx.check_close("hot density = custom density at Tinput, carried to Thot by the library material's own law",
+                    got, want, scale=rho)
+    if Tin == Thot:
+        ctx.check_close("with Thot = Tinput the component has exactly the custom density", got, rho, scale=rho)
+    ctx.check_close("mass per unit length = density x hot cross-section", c.getMass() / a[0].getHeight(),
+                    want * c.getArea(), scale=rho * areaCold)
+    nd = c.getNumberDensities()
+    names = sorted(n for n in vec if n in nd)          # elements of the vector are expanded to their isotopes
+    ref = names[0] if names else None
+    for n in names[1:]:
+        ctx.check_close("nuclides %s and %s are in the ratio of the custom mass fractions / atomic weights" % (n, ref),
+                        nd[n] * nuclideBases.byName[n].weight * vec[ref],
+                        nd[ref] * nuclideBases.byName[ref].weight * vec[n], scale=rho)
+    other = [k for k in CUSTOM_DENSITY_CASES if k != comp][0]
+    ctx.check_close("the other component keeps the density of its own custom vector (Thot = Tinput there)",
+                    a[0].getComponentByName(other).density(), 5.0, scale=5.0)
